@@ -73,6 +73,13 @@ def run_all(pid):
     for f in sorted(os.listdir(d)):
         if f.endswith(".patch"):
             out.append(run_patch(pid, os.path.join(d, f)))
+    # the independently seeded changes for this property (written by sub-agents without access to /verif) must be reported too
+    sd = os.path.join(VERIF, "seeded")
+    if os.path.isdir(sd):
+        for s in sorted(os.listdir(sd)):
+            p = os.path.join(sd, s, "patch.diff")
+            if s.startswith(pid) and os.path.exists(p):
+                out.append(run_patch(pid, p))
     return out
 
 
